@@ -221,6 +221,27 @@ func applyFault(root *jnode, path, fault string) bool {
 			return false
 		}
 		parent.kids[i] = &jnode{kind: "string", raw: `" "`}
+	case "paren-only", "paren-unclosed":
+		// "Person: Jane (jane@acme.example)" -> "Person: (jane@acme.example)" / "Person: Jane (": the optional trailing
+		// group of a structured string with nothing in front of it, and a group that is opened and never closed
+		if cur.kind != "string" {
+			return false
+		}
+		var v string
+		json.Unmarshal([]byte(cur.raw), &v)
+		prefix := ""
+		if k := strings.Index(v, ": "); k >= 0 {
+			prefix = v[:k+2]
+		}
+		payload := "(jane@acme.example)"
+		if fault == "paren-unclosed" {
+			payload = "Jane ("
+		}
+		b, _ := json.Marshal(prefix + payload)
+		if string(b) == cur.raw {
+			return false
+		}
+		parent.kids[i] = &jnode{kind: "string", raw: string(b)}
 	case "noassertion":
 		if cur.kind != "string" {
 			return false
